@@ -31,9 +31,9 @@ fn sig_of(input: &str, syn1: &str, syn2: &str) -> Option<String> {
         if input.contains(kw) && syn2 == format!("ERR expected identifier, found keyword `{}`", kw) && syn1 != syn2 {
             return Some("edition-2018-keyword-is-an-identifier-for-syn1-only".into());
         }
-        // the same word as a whole instruction argument (`#[into_existing(dyn)]` on a member): syn1 reads a member name,
-        // syn2 an expression, so both accept and the expansions differ
-        if syn1.starts_with("OK") && syn2.starts_with("OK") && syn1 != syn2 && keyword_is_whole_argument(input, kw) {
+        // the same word at the start of an instruction argument (`#[into_existing(dyn)]`, `#[try_from(dyn | ..)]`): syn1 reads a
+        // member name / a type to dedicate to, syn2 an expression, so the verdicts or the expansions differ
+        if syn1 != syn2 && keyword_in_identifier_position(input, kw) {
             return Some("edition-2018-keyword-is-an-identifier-for-syn1-only".into());
         }
     }
@@ -43,12 +43,12 @@ fn sig_of(input: &str, syn1: &str, syn2: &str) -> Option<String> {
     None
 }
 
-/// `kw` stands alone between `(` `|` `,` and `)` `,` somewhere in the input
-fn keyword_is_whole_argument(input: &str, kw: &str) -> bool {
+/// `kw` is the first token of an instruction argument: directly after `(`, `|` or `,`, and not the prefix of a longer word
+fn keyword_in_identifier_position(input: &str, kw: &str) -> bool {
     input.match_indices(kw).any(|(p, _)| {
         let before = input[..p].trim_end().chars().last();
-        let after = input[p + kw.len()..].trim_start().chars().next();
-        matches!(before, Some('(') | Some('|') | Some(',')) && matches!(after, Some(')') | Some(','))
+        let after = input[p + kw.len()..].chars().next();
+        matches!(before, Some('(') | Some('|') | Some(',')) && !after.map_or(false, |c| c.is_alphanumeric() || c == '_')
     })
 }
 
